@@ -88,8 +88,17 @@ def compute(events, spec, plan=None, opts=None):
     model = oracles.LayerModel(spec, plan)
     tests = {tid: (ts, layer, m, node) for tid, ts, layer, lvl, m, node
              in vworld.iter_tests(spec)}
+    units = {}
+    for m, node, layer, level in vworld.iter_units(spec):
+        for ts in node['tests']:
+            tests['%s.%s.%s' % (m['name'], node['name'], ts['name'])] = \
+                (ts, None if layer == 'UNIT' else layer, m, node)
+        units['%s.%s' % (m['name'], node['name'])] = \
+            'UNIT' if layer in (None, 'UNIT') else layer
     over = plan.get('tests') or {}
     T = Truth()
+    T.units = units
+    T.class_events = []
     T.layers = {}
     T.layer_failures = []
     T.import_failures = []
@@ -108,6 +117,11 @@ def compute(events, spec, plan=None, opts=None):
                     vworld.full_layer_name(spec, e['layer']), hook))
         elif k == 'crash':
             T.crashes.append((e.get('at'), e.get('how'), e['pid']))
+        elif k.startswith('class.') and e.get('cls') in units:
+            # class level fixture of a class run as a unit: an error or a
+            # skip event that belongs to no test
+            T.class_events.append((units[e['cls']], k[6:], e['cls'],
+                                   e.get('beh') or 'ok'))
     faults = dict((m['name'], m.get('fault')) for m in spec.get('modules', [])
                   if m.get('fault') or m.get('fault_test_suite') or
                   m.get('bad_suite'))
@@ -147,6 +161,21 @@ def compute(events, spec, plan=None, opts=None):
             d['U'] += c['U']
             d['S'] += len(c['S'])
             d['X'] += len(c['X'])
+    for L, hook, cname, beh in T.class_events:
+        if beh == 'ok':
+            continue
+        d = T.layers.setdefault(L, {'started': {}, 'F': [], 'E': [], 'S': 0,
+                                    'U': [], 'X': 0})
+        its = d.setdefault('iters', [])
+        if not its:
+            its.append({'tests': 0, 'F': 0, 'E': 0, 'S': 0})
+        # (worlds with such classes are not run with --repeat)
+        if beh == 'skip':
+            d['S'] += 1
+            its[0]['S'] += 1
+        else:
+            d['E'].append('%s (%s)' % (hook, cname))
+            its[0]['E'] += 1
     T.bad = bool(T.layer_failures or T.import_failures or T.crashes or any(
         d['F'] or d['E'] or d['U'] for d in T.layers.values()))
     T.model = model
